@@ -2,37 +2,37 @@
 # batches x runs = simulated cases of the plain binary; race_* = the same engine in the -race binary.
 CHECKS = {
     "C18": dict(engines=["c18"], level="exploration", gotree_bin=True,
-                quick=dict(batches=16, runs=120, timeout=900),
+                quick=dict(batches=16, runs=400, timeout=900),
                 thorough=dict(batches=64, runs=2500, timeout=3000)),
     "C17": dict(engines=["c17"], level="exploration",
-                quick=dict(batches=16, runs=150, timeout=900),
+                quick=dict(batches=16, runs=800, timeout=900),
                 thorough=dict(batches=64, runs=3000, timeout=3000)),
     "C15": dict(engines=["c15"], level="exploration",
-                quick=dict(batches=16, runs=300, timeout=900),
+                quick=dict(batches=16, runs=1500, timeout=900),
                 thorough=dict(batches=64, runs=6000, timeout=3000)),
     "C04": dict(engines=["c04hist", "c04map", "c04lin"], level="exploration", race_engines=["c04lin"],
-                quick=dict(batches=16, runs=200, race_batches=4, race_runs=40, timeout=900),
+                quick=dict(batches=16, runs=800, race_batches=8, race_runs=60, timeout=900),
                 thorough=dict(batches=64, runs=4000, race_batches=16, race_runs=400, timeout=3000)),
     "C03": dict(engines=["c03"], level="exploration",
-                quick=dict(batches=16, runs=400, timeout=900),
+                quick=dict(batches=16, runs=2000, timeout=900),
                 thorough=dict(batches=64, runs=8000, timeout=3000)),
     "C13": dict(engines=["c13"], level="exploration",
-                quick=dict(batches=16, runs=250, timeout=900),
+                quick=dict(batches=16, runs=800, timeout=900),
                 thorough=dict(batches=64, runs=1500, timeout=3000)),
     "C02": dict(engines=["c02"], level="fault_enumeration",
                 quick=dict(batches=16, runs=1500, timeout=900),
                 thorough=dict(batches=64, runs=40000, timeout=3000)),
     "C08": dict(engines=["c08"], level="exploration",
-                quick=dict(batches=16, runs=60, timeout=900),
+                quick=dict(batches=16, runs=500, timeout=900),
                 thorough=dict(batches=64, runs=1500, timeout=3000)),
     "C09": dict(engines=["c09"], level="exploration",
-                quick=dict(batches=16, runs=60, timeout=900),
+                quick=dict(batches=16, runs=500, timeout=900),
                 thorough=dict(batches=64, runs=1500, timeout=3000)),
     "C10": dict(engines=["c10"], level="exploration",
-                quick=dict(batches=16, runs=40, timeout=900),
+                quick=dict(batches=16, runs=300, timeout=900),
                 thorough=dict(batches=64, runs=1000, timeout=3000)),
     "C11": dict(engines=["c11"], level="exploration",
-                quick=dict(batches=16, runs=30, race_batches=8, race_runs=12, timeout=900),
+                quick=dict(batches=16, runs=200, race_batches=16, race_runs=40, timeout=900),
                 thorough=dict(batches=64, runs=500, race_batches=32, race_runs=120, timeout=3000)),
 }
 
